@@ -10,7 +10,7 @@ use crate::json::J;
 use crate::verdict::Ctx;
 
 pub fn run(ctx: &Ctx) -> i32 {
-    let sizes = Sizes { random: (4000, 40_000), deep: (600, 6000), level0_only: false, max_levels: 16, budget: 40_000 };
+    let sizes = Sizes { random: (4000, 100_000), deep: (600, 15_000), level0_only: false, max_levels: 16, budget: 40_000 };
     let per_file = ctx.tier.pick(45, 200);
     for_each_file(ctx, &sizes, |b, rng| {
         let keys: Vec<&[u8]> = b.entries.iter().map(|(k, _)| k.as_slice()).collect();
